@@ -1,6 +1,6 @@
-\* C02 leg A thorough, 3 counter replicas (nested adjust dd(dd(r1,r2),r3)): <= 2 samples each on a 3-point
-\* grid, start {0,2}, increments {0,5} (19 series per replica, 6 859 inputs), 1 seek target.
-\* Leg B gets every input.
+\* C02 leg A thorough, 3 counter replicas (nested adjust dd(dd(r1,r2),r3)): <= 2 samples each on a
+\* 3-point grid, start {0,2}, increments {0,5} (19 series per replica, 6 859 inputs), readers with
+\* at most one Seek(1). Leg B gets every input.
 SPECIFICATION Spec
 CONSTANTS InitPen = 5
           Grid = {0, 1, 7}
